@@ -378,7 +378,12 @@ def gen_c18(env, tier):
     n_cases = 7000 if tier == "quick" else 80000
     for _ in range(n_cases):
         func = rnd.choice(cb.STATS)
-        case = stat_case(env, func)
+        if rnd.random() < 0.1 and func not in ("wquantile",):
+            # a dimension with an extra axis: the statistic is filled once per slice by the same function object
+            nd = rnd.choice([1, 2])
+            case = stat_case(env, func, nd=nd, extra=[(2,)] + [()] * (nd - 1), maxrows=6)
+        else:
+            case = stat_case(env, func)
         if func == "wquantile":
             run_wquantile(env, case)
         else:
@@ -557,6 +562,8 @@ def gen_reuse(env, tier, prop):
 
 def gen_c03_all(env, tier):
     gen_c03(env, tier)
+    gen_live(env, tier, "C03")
+    gen_live(env, tier, "C03", with_axes=True)
     gen_reuse(env, tier, "C03")
     gen_twin_dims(env, tier, "C03")
     gen_residue(env, tier, "C03")
